@@ -41,6 +41,9 @@ func genC12(seed uint64, tier string) *plan.Plan {
 	r := rand.New(rand.NewPCG(seed, 0xc12))
 	pl := &plan.Plan{Cfg: map[string]int64{}}
 	pl.Cfg["transport"] = int64(r.IntN(3))
+	if pl.Cfg["transport"] == 2 && r.IntN(8) == 0 {
+		pl.Cfg["badtls"] = 1
+	}
 	if r.IntN(3) == 0 {
 		// exporters of several vendors: every client's template ends in elements of its own that the
 		// collector (configured to drop what it does not know) has never seen
@@ -147,6 +150,12 @@ func runC12(pl *plan.Plan, out *plan.Outcome) {
 	if tr == 2 {
 		cin.IsEncrypted = true
 		cin.ServerCert, cin.ServerKey = z.SrvGood.CertPEM, z.SrvGood.KeyPEM
+		if cfgOr(pl, "badtls", 0) == 1 {
+			// a private key that does not belong to the certificate: the collector cannot serve anybody;
+			// Start, clients that get nowhere, Stop - and nothing of it is left behind
+			cin.ServerKey = z.SrvNameOnly.KeyPEM
+			env.Count("fault.collector_with_unusable_tls_settings", 1)
+		}
 	}
 	cp, err := collector.InitCollectingProcess(cin)
 	if err != nil {
